@@ -77,6 +77,20 @@ def exotic_index(f, rng):
     return f
 
 
+def present_rows(f, rng, spec):
+    """the same table with its rows in another order: canonical, any order, or ordered by the leading record key only
+    (ORDER BY id: rows that tie on it stay in any order)"""
+    how = rng.choice(["canonical", "shuffled", "lead-key-sorted"])
+    if how == "canonical" or f.shape[0] < 2:
+        return f.copy(), "canonical"
+    idx = list(range(f.shape[0]))
+    rng.shuffle(idx)
+    g = f.iloc[idx].reset_index(drop=True)
+    if how == "lead-key-sorted" and spec["record_keys"]:
+        g = g.sort_values(by=[spec["record_keys"][0]], kind="stable").reset_index(drop=True)
+    return g, how
+
+
 def judge(b, case, rng):
     import polars as pl
 
@@ -179,6 +193,8 @@ def judge(b, case, rng):
             return fail("transform-raised", f"composition: {exc_str(ex)}")
     # --- Polars vs Pandas
     for name, frame, mp in (("rows->blocks", X, m_out), ("blocks->rows", WB, m_in)):
+        frame, how = present_rows(frame, rng, spec)
+        b.count("polars_presentations", how)
         try:
             pf = pl.from_pandas(frame) if frame.shape[1] else None
             got = mp.transform(pf)
@@ -236,6 +252,14 @@ def gen_case(rng):
         s2 = RG.gen_spec(rng, tag="b", content=RG.content_names(spec), n_record_keys=len(spec["record_keys"]))
         if s2 is not None:
             spec2 = s2
+    for sp in (spec, spec2):
+        if sp is not None and rng.random() < 0.4:
+            # the user's own layout of the control table: key columns anywhere, keys listed in any order
+            order = list(sp["control_table"]["cols"])
+            rng.shuffle(order)
+            sp["col_order"] = order
+            if len(sp["control_table_keys"]) > 1 and rng.random() < 0.5:
+                sp["control_table_keys"] = list(reversed(sp["control_table_keys"]))
     helper = rng.random() < 0.5
     if helper and rng.random() < 0.5:
         # the simple one-key one-value layout the helper constructors build
